@@ -8,6 +8,8 @@
 (* bytes.  An event conforms iff the decoders' verdicts equal DecodeSig/DecodePK and the verify   *)
 (* verdict equals SpecVerify; a panic never conforms.  Non-conforming events are collected in     *)
 (* `bad` (the trace is accepted iff bad = {} at the end); every event prints a VERDICT line.      *)
+(* Events with "honest":true were produced by sign() itself under the matching key: for them the   *)
+(* specification's verdict must moreover be TRUE (C01: Completeness).                             *)
 EXTENDS Verify, TraceLib
 VARIABLES l, bad, tally
 vars == <<l, bad, tally>>
@@ -18,7 +20,7 @@ Judge(e) ==
       r == IF ds.ok /\ dp.ok THEN VerifyParts(e.msg, ds.salt, ds.body, dp.h, P)
            ELSE [accept |-> FALSE, branch |-> IF ~ds.ok THEN "undecodable-sig-" \o ds.why ELSE "undecodable-pk-" \o dp.why, norm |-> -1]
       expect == IF ds.ok /\ dp.ok THEN (IF r.accept THEN "true" ELSE "false") ELSE "na"
-  IN [ok |-> e.sig_ok = ds.ok /\ e.pk_ok = dp.ok /\ e.res = expect,
+  IN [ok |-> e.sig_ok = ds.ok /\ e.pk_ok = dp.ok /\ e.res = expect /\ (e.honest => expect = "true"),
       branch |-> r.branch, norm |-> r.norm, expect |-> expect, sig_ok |-> ds.ok, pk_ok |-> dp.ok]
 
 \* TLC evaluates this constant once, outside the action context (where it would not cache LET values)
@@ -33,7 +35,7 @@ Next == /\ l <= NRec
              /\ bad' = IF j.ok THEN bad ELSE bad \cup {l}
              /\ tally' = Append(tally, j.branch)
         /\ l' = l + 1
-        /\ (l < NRec \/ PrintT(<<"DONE", NRec, bad'>>))
+        /\ (IF l < NRec THEN TRUE ELSE PrintT(<<"DONE", NRec, bad'>>))
 Spec == Init /\ [][Next]_vars
 \* every conforming prefix keeps bad empty; reported through the DONE line and this invariant's twin in the runner
 TraceAccepted == TLCGet("stats").diameter = NRec + 1
